@@ -51,11 +51,17 @@ def load_patch_cases():
     for n in sorted(os.listdir(nd)) if os.path.isdir(nd) else []:
         pp = os.path.join(nd, n, "patch.diff")
         if os.path.exists(pp):
-            neu.append(dict(name="neutral:" + n, props=ALL_PROPS, patch=pp, edits=[]))
+            c = dict(name="neutral:" + n, props=ALL_PROPS, patch=pp, edits=[])
+            mp = os.path.join(nd, n, "meta.json")
+            if os.path.exists(mp):
+                # a refactor on which a DOCUMENTED false alarm remains (DESIGN Appendix D): exactly those keys may fire, so that
+                # the case keeps guarding everything else
+                c["documented_false_alarms"] = json.load(open(mp)).get("documented_false_alarms", [])
+            neu.append(c)
     return mut, neu
 
 
-def make_scratch(edits, patch=None):
+def make_scratch(edits, patch=None, post_edits=()):
     d = tempfile.mkdtemp(prefix="rr-selftest-")
     for item in ("src", "rustradio_macros", "Cargo.toml", "Cargo.lock", "examples", "benches", "tests", "testdata",
                  "extra", "README.md", "doc"):
@@ -78,6 +84,14 @@ def make_scratch(edits, patch=None):
         if r.returncode != 0:
             shutil.rmtree(d, ignore_errors=True)
             raise RuntimeError("patch does not apply: %s" % r.stdout[-300:])
+    for e in post_edits:          # a mutation of the refactored code
+        p = os.path.join(d, e["file"])
+        txt = open(p).read()
+        cnt = txt.count(e["old"])
+        if cnt != e.get("count", 1):
+            shutil.rmtree(d, ignore_errors=True)
+            raise RuntimeError("post-edit anchor found %d times (want %d) in %s: %r" % (cnt, e.get("count", 1), e["file"], e["old"][:60]))
+        open(p, "w").write(txt.replace(e["old"], e["new"]))
     return d
 
 
@@ -99,7 +113,7 @@ def run_tests(scratch, worker):
 def one_case(kind, case, worker, with_tests):
     t0 = time.time()
     try:
-        scratch = make_scratch(case["edits"], case.get("patch"))
+        scratch = make_scratch(case["edits"], case.get("patch"), case.get("post_edits", ()))
     except RuntimeError as e:
         return dict(name=case["name"], kind=kind, ok=False, why="stale edit: %s" % e, secs=0)
     try:
@@ -124,8 +138,13 @@ def one_case(kind, case, worker, with_tests):
         else:
             for prop in case["props"]:
                 rc, keys, out = run_check(prop, scratch, worker)
+                doc = [k for k in keys if any(k.startswith(d) for d in case.get("documented_false_alarms", []))]
+                rest = [k for k in keys if k not in doc]
+                if doc and not rest:
+                    res["why"] = (res.get("why", "") + "  [documented false alarm: %s]" % doc[0][:60]).strip()
+                    continue
                 if rc != 0 or keys:
-                    res.update(ok=False, why="neutral edit raised %s: %r" % (prop, keys[:3]))
+                    res.update(ok=False, why="neutral edit raised %s: %r" % (prop, rest[:3] or keys[:3]))
                     break
         if with_tests and res["ok"]:
             okt, log = run_tests(scratch, worker)
